@@ -18,7 +18,7 @@ def _th(*audits: str) -> list[str]:
 
 # properties whose machinery is finished and reviewed (everything else is listed under not_applicable
 # in MANIFEST.json with the reason "in progress")
-READY = {"C01", "C02", "C03", "C04", "C05", "C06", "C07", "C08", "C09", "C10", "C11", "C13", "C14", "C16", "C17", "C18", "C19", "C20"}
+READY = {"C01", "C02", "C03", "C04", "C05", "C06", "C07", "C08", "C09", "C10", "C11", "C13", "C14", "C15", "C16", "C17", "C18", "C19", "C20"}
 
 
 def _reg(pid, modules, audits, families, note, partial="", assumptions=None, pre_build=None):
